@@ -491,6 +491,10 @@ func checkC12(p *Prog, r *Report) {
 			return true
 		})
 	}
+
+	// ---- R12.8 exhaustive clean-up / migration loops ----
+	r.Rule("R12.8", "The loops that must treat every element of a collection do so: no early exit, and no path through an iteration that skips the operation (closing the mux closes every connection of both families).", 2)
+	checkForAllLoops(p, r, "C12")
 }
 
 // reachesViaRead: every path from b to target passes the socket read (i.e.
